@@ -22,6 +22,7 @@
 -/
 import ControlModel.Gen.C07Facts
 import ControlModel.Proofs.RunNumber
+import ControlModel.Proofs.RunAttempts
 
 open RunNumber
 
@@ -52,6 +53,21 @@ theorem C07_wrap_is_code :
     which is what `adopted` models. -/
 theorem C07_consumer_is_code :
     (Gen.C07.serviceDelegates && Gen.C07.startCancelledOnError) = true := by decide
+
+/-- The CONSUMER obtains a fresh number for every start attempt: in the `before_event` callback
+    of core/environment/environment.go the START_ACTIVITY branch is reached whenever the
+    negative-weight hooks passed (the only `return` before it is the one that cancels on their
+    error); inside the branch `the.ConfSvc().NewRunNumber()` is called UNCONDITIONALLY (a statement
+    of the branch itself — not under a further `if`/`switch`/loop, no `return` before it; it is the
+    only call in the callback); its result, never re-assigned, is what goes into
+    `env.currentRunNumber`, the `run_number` variable and the Ev_RunEvent STARTED; and no other
+    statement of package environment gives `currentRunNumber` a value other than 0. This is what
+    `RunAttempts.codeEnvCfg.fresh` (every attempt that gets past the negative-weight hooks calls
+    the protocol) stands for; a consumer that keeps a number it still holds makes this false. -/
+theorem C07_start_obtains_fresh_number_is_code :
+    RunAttempts.codeEnvCfg.fresh =
+      (Gen.C07.startReachedAfterNegHooksOnly && Gen.C07.startCallUnconditional &&
+       Gen.C07.startNumberAdopted && Gen.C07.onlyStartSetsNumber) := by decide
 
 /-! ## the theorems -/
 
@@ -291,3 +307,98 @@ example :
     st.WF ∧ ForeignMonotone codeProto sched (init st) = true ∧ NoWrap codeProto sched (init st) = true ∧
     (run codeProto sched (init st)).log.map (·.num) = [561235, 600001] ∧
     (run codeProto sched (init st)).callers 0 = .done 561235 .cas 0 4 (some 90) := by decide
+
+/-! ## environment level: the numbers an environment hands to its successive start attempts
+
+  Model/RunAttempts.lean composes the environment machine (Model/Env.lean: which requests of a
+  history are START attempts that get as far as the call) with the protocol above: each such
+  attempt is one complete call by a fresh caller on the durable store the previous one left. -/
+
+open RunAttempts in
+/-- **Any sequence of attempts** — whatever the calls are (made, failing, not made), from any
+    well-formed counter, for any protocol with CAS, checked answer and guard: the numbers obtained
+    strictly increase in the order of the attempts and all lie above the level the counter had when
+    the history began. (Composition of the per-call invariant `C07_invariant` / `C07_above_initial`
+    over the durable store: a complete call never lowers the level, and its number lies above the
+    old level and at most at the new one.) -/
+theorem C07_env_attempts_strictly_increasing (cfg : EnvCfg) (hf : cfg.fresh = true)
+    (p : Proto) (hcas : p.useCas = true) (hchk : p.checkOk = true) (hg : p.guard = true)
+    (as : List Att) (st : Store) (hwf : st.WF) (prev : Nat) :
+    (obtained (attempts cfg p st prev as)).Pairwise (· < ·) ∧
+    ∀ n ∈ obtained (attempts cfg p st prev as), st.level < n :=
+  attempts_increasing cfg hf p hcas hchk hg as st prev hwf
+
+open RunAttempts in
+/-- **The property for the environment as it stands**: for EVERY hook set, every request history
+    (transitions through TryTransition or the API glue, teardowns; failing hooks anywhere, failing
+    bodies, failing calls) and every well-formed initial counter, the run numbers the environment
+    hands to its successive start attempts strictly increase — a START retried after a START that
+    was cancelled by a before_START_ACTIVITY / leave_CONFIGURED hook, or started after
+    GO_ERROR → RECOVER → CONFIGURE, gets a number larger than every number handed out before. -/
+theorem C07_env_strictly_increasing_code (hooks : List EnvM.Hook) (nTasks : Nat) (reqs : List EnvM.Req)
+    (st : Store) (hwf : st.WF) :
+    (obtained (numbers codeEnvCfg codeProto st hooks nTasks reqs)).Pairwise (· < ·) ∧
+    ∀ n ∈ obtained (numbers codeEnvCfg codeProto st hooks nTasks reqs), st.level < n :=
+  attempts_increasing codeEnvCfg rfl codeProto rfl rfl rfl _ st 0 hwf
+
+open RunAttempts in
+/-- … hence no number is handed to two attempts of a history. -/
+theorem C07_env_unique_code (hooks : List EnvM.Hook) (nTasks : Nat) (reqs : List EnvM.Req)
+    (st : Store) (hwf : st.WF) :
+    distinctNums (obtained (numbers codeEnvCfg codeProto st hooks nTasks reqs)) = true :=
+  distinct_of_pairwise_lt _ (C07_env_strictly_increasing_code hooks nTasks reqs st hwf).1
+
+open RunAttempts in
+/-- The decidable `SpecEnv` the driver evaluates on what the real Environment published holds of
+    the model's numbers, for all histories. -/
+theorem C07_env_spec (hooks : List EnvM.Hook) (nTasks : Nat) (reqs : List EnvM.Req) (st : Store) (hwf : st.WF) :
+    SpecEnv ((numbers codeEnvCfg codeProto st hooks nTasks reqs).map Option.toList) = true :=
+  specEnv_of_pairwise _ (C07_env_strictly_increasing_code hooks nTasks reqs st hwf).1
+
+open RunAttempts in
+/-- Which requests are attempts, tied to the environment machine shared with C01/C08/C09/C10: the
+    machine's own run counter advances at a request exactly when the request is a START_ACTIVITY
+    accepted by the FSM whose negative-weight before-hooks pass and whose call does not fail
+    (`attOf … = .ok`) — one call per such attempt, none otherwise; and an attempt whose call fails
+    is cancelled with the run-number error (no number, `C07_start_cancelled_without_number`). -/
+theorem C07_env_attempt_calls_once (hooks : List EnvM.Hook) (nTasks : Nat) (env : EnvM.Env) (q : EnvM.Req) :
+    (EnvM.step hooks nTasks env q).1.counter = env.counter + (if (attOf env hooks q).call = .ok then 1 else 0) ∧
+    (∀ e b r, q = .try_ e b r → (attOf env hooks q).call = .fails →
+      (EnvM.step hooks nTasks env q).2.2 = .cancelledRn) :=
+  ⟨step_counter hooks nTasks env q, fun e b r hq hc => by subst hq; exact fsmEvent_fails env hooks e b r hc⟩
+
+open RunAttempts in
+/-- Over a whole history the machine's counter counts the calls that were made and did not fail. -/
+theorem C07_env_counter_counts_calls (hooks : List EnvM.Hook) (nTasks : Nat) (reqs : List EnvM.Req) :
+    (EnvM.finalEnv hooks nTasks {} reqs).counter = okCount (atts hooks nTasks {} reqs) := by
+  have := finalEnv_counter hooks nTasks reqs {}
+  simpa using this
+
+open RunAttempts in
+/-- The unconditional call is needed: a consumer that keeps the number it still holds
+    (`fresh := false`) hands the number of a run that ended in ERROR to the run started after
+    RECOVER and CONFIGURE — with the protocol itself untouched. -/
+theorem C07_needs_unconditional_call :
+    ∃ (hooks : List EnvM.Hook) (reqs : List EnvM.Req),
+      obtained (numbers { fresh := false } codeProto ⟨none, 0⟩ hooks 0 reqs) = [1, 1] ∧
+      obtained (numbers codeEnvCfg codeProto ⟨none, 0⟩ hooks 0 reqs) = [1, 2] :=
+  ⟨[], [.try_ .DEPLOY true false, .try_ .CONFIGURE true false, .try_ .START_ACTIVITY true false,
+        .try_ .GO_ERROR true false, .try_ .RECOVER true false, .try_ .CONFIGURE true false,
+        .try_ .START_ACTIVITY true false], by decide, by decide⟩
+
+open RunAttempts in
+/-- Non-vacuity: a critical before_START_ACTIVITY hook of weight +5 fails its first execution (the
+    start is cancelled AFTER number 1 was obtained), a negative-weight one fails its second (that
+    attempt never calls), the third call fails, the fourth attempt runs and is stopped, the fifth
+    runs: the numbers handed out are 1, 2, 3 at the requests 2, 5 and 7. -/
+example :
+    let hooks : List EnvM.Hook := [
+      { id := 0, isTask := false, critical := true, trig := .before .START_ACTIVITY, tw := 5,
+        await := .before .START_ACTIVITY, aw := 5, outcomes := [true] },
+      { id := 1, isTask := false, critical := true, trig := .before .START_ACTIVITY, tw := -5,
+        await := .before .START_ACTIVITY, aw := -5, outcomes := [false, true] }]
+    numbers codeEnvCfg codeProto ⟨none, 0⟩ hooks 0
+      [.try_ .DEPLOY true false, .try_ .CONFIGURE true false, .try_ .START_ACTIVITY true false,
+       .try_ .START_ACTIVITY true false, .try_ .START_ACTIVITY true true, .try_ .START_ACTIVITY true false,
+       .try_ .STOP_ACTIVITY true false, .try_ .START_ACTIVITY true false]
+      = [none, none, some 1, none, none, some 2, none, some 3] := by decide
